@@ -81,6 +81,7 @@ class ScriptedCollector(Collector):
 class SchedWorld:
     def __init__(self, ids, seed=None, logger=None, model=None, events=None, world=None):
         self.world = world          # a harness.drivers.world.Driver whose operations scripts may call (composition)
+        self.conf = {}              # object -> the configuration this driver last gave it
         if model is not None:
             self.model = model
         elif logger == "quiet":
@@ -124,8 +125,14 @@ class SchedWorld:
                 self.objects[obj] = inst
                 if obj[0] not in self.ids:
                     self.ids.append(obj[0])
+            elif self.conf.get(obj) != (prio, start, end, freq):
+                # a changed configuration is written to the object; an unchanged one leaves the object exactly as the
+                # library left it when the system was let go
+                inst.priority, inst.start, inst.end, inst.frequency = prio, start, _end_to_py(end), freq
+                inst.script = script
             else:
-                inst.priority, inst.start, inst.end, inst.frequency, inst.script = prio, start, _end_to_py(end), freq, script
+                inst.script = script
+            self.conf[obj] = (prio, start, end, freq)
         self.nadd = getattr(self, "nadd", 0) + 1
         if getattr(self, "shadow", None) is not None and self.nadd % 2 == 0:
             try:
@@ -199,7 +206,11 @@ class SchedWorld:
             elif via == "throw":
                 self.model.systems.execute_systems(throw_error=True)
             elif via == "throw1":          # a truthy flag that is not the literal True
-                self.model.systems.execute_systems(throw_error=1)
+                self.nthrow = getattr(self, "nthrow", 0) + 1
+                if self.nthrow % 2:
+                    self.model.systems.execute_systems(throw_error=1)
+                else:
+                    self.model.systems.execute_systems(True)          # the flag given by position
             else:
                 raise AssertionError(via)
         except Exception as e:  # noqa: BLE001
